@@ -324,9 +324,13 @@ type shutRun struct {
 	finalCloseNS  int64
 	giveUpNS      int64
 	afterWG       sync.WaitGroup
+	deferred      [][2]string
 }
 
 func (s *shutRun) now() int64 { return s.w.NowNS() }
+
+// stamp: a timestamp that is never 0 (0 means "did not happen")
+func (s *shutRun) stamp() int64 { return max(s.w.NowNS(), 1) }
 
 func (s *shutRun) report(sig, f string, a ...any) {
 	if s.on["C17"] || s.on["all"] {
@@ -644,7 +648,7 @@ func (s *shutRun) closeTransport(side int) {
 		return
 	}
 	s.trClosed[side] = true
-	s.trCloseNS[side][0] = s.now()
+	s.trCloseNS[side][0] = s.stamp()
 	s.mu.Unlock()
 	if side == 0 {
 		s.nodes.CTr.Close()
@@ -652,7 +656,7 @@ func (s *shutRun) closeTransport(side int) {
 		s.nodes.STr.Close()
 	}
 	s.mu.Lock()
-	s.trCloseNS[side][1] = s.now()
+	s.trCloseNS[side][1] = s.stamp()
 	s.mu.Unlock()
 	// the application closes its socket as well (nobody reads from it any more)
 	if side == 0 {
@@ -669,7 +673,7 @@ func (s *shutRun) causeAction(atNS int64) {
 	}
 	sc := s.sc
 	s.mu.Lock()
-	s.causeFiredNS = s.now()
+	s.causeFiredNS = s.stamp()
 	s.mu.Unlock()
 	switch sc.Cause {
 	case "close":
@@ -678,15 +682,15 @@ func (s *shutRun) causeAction(atNS int64) {
 		s.closeTransport(sc.Side)
 	case "ln-close":
 		s.mu.Lock()
-		s.lnCloseNS[0] = s.now()
+		s.lnCloseNS[0] = s.stamp()
 		s.mu.Unlock()
 		s.nodes.Ln.Close()
 		s.mu.Lock()
-		s.lnCloseNS[1] = s.now()
+		s.lnCloseNS[1] = s.stamp()
 		s.mu.Unlock()
 	case "dial-cancel":
 		s.mu.Lock()
-		s.dialCancelNS = s.now()
+		s.dialCancelNS = s.stamp()
 		s.mu.Unlock()
 		s.dialCancel(errShutCancel)
 	case "reset":
@@ -823,6 +827,9 @@ func shutRunSim(t *testing.T, ksc KScenario, res *KResult) {
 	}
 	s.execute()
 	s.judge()
+	if len(s.deferred) > 0 && !res.Failed() && res.Blocked == "" {
+		s.report(s.deferred[0][0], "%s", s.deferred[0][1])
+	}
 	s.trace()
 }
 
@@ -982,7 +989,7 @@ func (s *shutRun) execute() {
 		}
 		tm.Stop()
 	}
-	horizon := maxIdle + 3*time.Second
+	horizon := 2*maxIdle + 3*time.Second // a keep-alive sent into the void restarts the idle period once
 	if established {
 		estNS := s.now()
 		if sc.Base == "est" && sc.hasAction() {
@@ -1275,7 +1282,9 @@ func (s *shutRun) judge() {
 		}
 		if c.done && c.err == nil {
 			if c.later && c.kind == "snddgram" {
-				s.report("(2) SendDatagram on a connection that has ended reports success", "side %d: returned nil at %v, connection ended at %v with %v", c.side, time.Duration(c.retNS), time.Duration(sd.end.doneNS), sd.end.cause)
+				// a known defect that would mask everything else: reported only if nothing else is wrong with the run
+				s.deferred = append(s.deferred, [2]string{"(2) SendDatagram on a connection that has ended reports success",
+					fmt.Sprintf("side %d: returned nil at %v, connection ended at %v with %v", c.side, time.Duration(c.retNS), time.Duration(sd.end.doneNS), sd.end.cause)})
 			} else if c.later && c.kind != "rcvdgram" {
 				s.report("(2) "+c.kind+" call issued after the connection ended succeeded", "side %d at %v, connection ended at %v", c.side, time.Duration(c.startNS), time.Duration(sd.end.doneNS))
 			}
@@ -1718,6 +1727,9 @@ func (s *shutRun) judgeExact(v [2]*shutView) {
 	want := func(k int, classes ...string) {
 		if !v[k].has {
 			return
+		}
+		if v[k].class == "reset" && sc.ResetKey && len(s.sides[1-k].probesNS) > 0 {
+			return // the harness's own late packets to the peer's transport were answered with a stateless reset
 		}
 		for _, c := range classes {
 			if v[k].class == c {
